@@ -361,6 +361,35 @@ def unrepresentable_checks(bdir, seed):
         img = sqfsdec.decode(os.path.join(s, "o.sqfs")) if r.rc == 0 else None
         if r.rc != 0 or not img.ok() or (b"n" * 256) not in img.tree:
             out.append(("name-256-bytes-ok", "a 256 byte name was refused or stored altered"))
+        # directory listings around the 64 KiB limit of the basic directory inode (16 bit size field storing listing + 3), reached with
+        # FEWER than 256 entries: 250 entries with names of ~254 bytes; listing = 12 per header + 8 + len(name) per entry
+        # (the writer starts a new 12 byte header at every metadata block boundary of the listing, so the size is measured once on a
+        #  listing safely above the limit - stored in an extended inode - and the names are then shortened by exact arithmetic)
+        def dirpack(lens):
+            names = [(b"%03d" % i) + b"n" * (L - 3) for i, L in enumerate(lens)]
+            r = pack(b"dir /d 0755 0 0\n" + b"".join(b"pipe /d/%s 0644 0 0\n" % nm for nm in names), binary=plain)
+            img = sqfsdec.decode(os.path.join(s, "o.sqfs")) if r.rc == 0 else None
+            return names, r, img
+        lens0 = [254] * 249 + [200]              # only the LAST name is tuned: everything in front of it keeps its layout
+        names, r, img = dirpack(lens0); n += 1
+        have0 = img.tree[b"d"].dir_size - 3 if (img is not None and img.ok() and b"d" in img.tree) else None
+        if have0 is None or not (65537 - 50 < have0 < 65531 + 190):
+            out.append(("dir-listing-probe", "could not build the probe directory (%s)" % (r.stderr[-100:] if r.rc else have0)))
+        else:
+            # calibrate once more well below the limit: there the inode is a basic one, as it still is (or wrongly stays) up to the limit
+            last1 = 200 + 65500 - have0
+            names, r, img = dirpack(lens0[:-1] + [last1]); n += 1
+            a1 = img.tree[b"d"].dir_size - 3 if (img is not None and img.ok() and b"d" in img.tree) else None
+            if a1 is None or not (65400 < a1 < 65530):
+                out.append(("dir-listing-probe", "calibration run gave a listing of %s bytes" % a1))
+            else:
+                for want in (65531, 65532, 65533, 65534, 65535, 65536, 65537, 65540):
+                    names, r, img = dirpack(lens0[:-1] + [last1 + want - a1]); n += 1
+                    got = sorted(p2[2:] for p2 in img.tree if p2.startswith(b"d/")) if img is not None and img.ok() else None
+                    if r.rc != 0 or got != sorted(names) or img.invalid:
+                        out.append(("dir-listing-near-64k", "a directory of 250 entries whose listing would be %d bytes in a basic inode %s" % (
+                            want, "was refused" if r.rc != 0 else ("reads back with %s entries%s" % (len(got) if got is not None else "?", (": " + (img.invalid or img.errors)[0]) if img is not None and (img.invalid or img.errors) else "")))))
+                        break
         # one more distinct id than the 16 bit id count of the super block can express (65535): uid 0 of the root plus 65535 others
         r = pack(b"".join(b"pipe /p%d 0644 %d 0\n" % (i, i + 1) for i in range(65535)), binary=plain); n += 1
         if r.rc == 0:
